@@ -7,11 +7,14 @@ from .base import Prop
 from .c06 import lab_key
 
 
-def distinct_array(rng, rank):
-    """axes of different lengths and kinds so that any mix-up changes shapes or labels"""
+def distinct_array(rng, rank, zero=0.0):
+    """axes of different lengths and kinds so that any mix-up changes shapes or labels
+    (`zero`: share of arrays one of whose axes has no label at all)"""
     sizes = rng.sample([1, 2, 3, 4, 5], rank)
     if rng.random() < 0.3 and rank:
         sizes[rng.randrange(rank)] = 1
+    if zero and rank and rng.random() < zero:
+        sizes[rng.randrange(rank)] = 0
     dims = rng.sample(gen.DIMS, rank)
     axes = [gen.rand_axis(rng, d, n=n) for d, n in zip(dims, sizes)]
     arr = {"axes": axes, "vkind": rng.choice(["f", "i"])}
@@ -21,6 +24,38 @@ def distinct_array(rng, rank):
         if rng.random() < 0.3:
             ax["attrs_py"] = {"units": "u" + ax["name"]}
     return arr
+
+
+DUMMY = {"op": "union", "a": {"name": "x", "kind": "i", "labels": []}, "b": {"name": "x", "kind": "i", "labels": []}, "join": "outer"}
+
+
+def apply_step10(a, st):
+    """the spellings the shared ops.apply_step does not know"""
+    fn = st["fn"]
+    if fn == "repeat" and st.get("count") is not None:
+        # repeat(<int>, axis): the new labels are 0, 1, 2, ...
+        if st.get("kwaxis", True):
+            return a.repeat(int(st["count"]), axis=ops.key_py(st["axis"]))
+        return a.repeat(int(st["count"]), ops.key_py(st["axis"]))
+    if fn == "transpose" and st.get("how") == "set":
+        return a.transpose(set(ops.key_py(k) for k in st["dims"]))
+    return ops.apply_step(a, st)
+
+
+def lean_step10(st):
+    st = ops.lean_step(st)
+    for k in ("count", "kwaxis", "invalid"):
+        st.pop(k, None)
+    return st
+
+
+def set_order(st):
+    """the order in which this process iterates over the set built by apply_step10 (a set has no order of its
+    own: any order is a legitimate reading of the request, the model is asked about the one that was used)"""
+    keys = {}
+    for k in st["dims"]:
+        keys.setdefault(ops.key_py(k), k)
+    return [keys[x] for x in set(ops.key_py(k) for k in st["dims"])]
 
 
 def check_coordinates(inp, out):
@@ -66,12 +101,18 @@ class C10(Prop):
                 "swapaxes_spec", "rollaxis_spec", "rollaxis_lands_before", "squeeze_axis_spec", "squeeze_all_spec", "repeat_spec",
                 "newaxis_spec", "newaxis_values_spec", "broadcast_spec", "sameByName_unique", "sameOn_unique"]
     rule = ("arrays of rank 0-4 whose axes have pairwise different lengths and mixed kinds (a share with singleton "
-            "axes), carrying array- and axis-level metadata; chains of 1-4 steps among transpose (list / tuple / varargs, "
-            "names / positions / negative positions, default, .T), swapaxes, rollaxis (every axis, start), newaxis (every "
-            "pos incl. -1, with and without values), squeeze (all / one axis), repeat (array or Axis), broadcast (list of "
-            "axes / DimArray / OrderedDict targets in any order) and broadcast_arrays; the inverse-permutation round trip. "
+            "axes, a share with one zero-length axis), carrying array- and axis-level metadata; chains of 1-4 steps among "
+            "transpose (list / tuple / varargs / set, names / positions / negative positions, default, .T), swapaxes "
+            "(incl. swapaxes(i, i)), rollaxis (every axis, start), newaxis (every pos incl. -1, with and without values), "
+            "squeeze (all / one axis), repeat (array, Axis or an integer count), broadcast (list of axes / DimArray / "
+            "OrderedDict targets in any order) and broadcast_arrays / align_dims (a share with a label-less dimension); "
+            "the inverse-permutation round trip; requests that name no permutation / pair of the dimensions (too few, "
+            "a dimension twice, an unknown name, an integer position out of range) must be refused. "
             "Non-trivial = rank >= 2 or a dimension added/removed; distinct = canonical JSON")
-    assumptions = ["comma-free dimension names; labels unique"]
+    assumptions = ["comma-free dimension names; labels unique",
+                   "integer positions out of range are decided by the oracle alone (the Lean mirror does not validate them)",
+                   "transpose(set): any order of the dimensions is accepted by the oracle; the model is asked about the order "
+                   "in which the running process iterates over the set"]
 
     def mirrors(self):
         import sys as _s
@@ -94,6 +135,54 @@ class C10(Prop):
         if any(len(a["labels"]) == 1 for a in sim.axes):
             choices += ["repeat", "repeat", "squeeze"]
         fn = rng.choice(choices)
+        if fn == "swapaxes" and rng.random() < 0.12:
+            fn = "swapaxes_same"
+        if fn == "transpose" and n >= 1 and allow_invalid:
+            r = rng.random()
+            if r < 0.10:
+                fn = "transpose_set"
+            elif r < 0.28:
+                fn = "transpose_bad"
+        if fn == "swapaxes" and allow_invalid and rng.random() < 0.12:
+            fn = "swapaxes_bad"
+        if fn == "swapaxes_same":
+            # swapaxes(i, i), the two operands spelled independently: nothing moves
+            i = rng.randrange(n)
+            return {"fn": "swapaxes", "a1": sim.key(rng, i), "a2": sim.key(rng, i), "same": True}
+        if fn == "transpose_set":
+            # a set of names / positions: every dimension once, in no particular order (last step of its chain)
+            st = {"fn": "transpose", "dims": [sim.key(rng, p) for p in range(n)], "how": "set", "_last": True}
+            if rng.random() < 0.5:
+                st["dims"] = [["name", a["name"]] for a in sim.axes]
+            rng.shuffle(st["dims"])
+            return st
+        if fn == "transpose_bad":
+            # not a permutation of the dimensions: too few, a dimension twice, an unknown name, a position out of range
+            perm = list(range(n))
+            rng.shuffle(perm)
+            keys = [sim.key(rng, p) for p in perm]
+            kinds = ["unknown", "range"] + (["partial", "repeated"] if n >= 2 else ["extra"])
+            kind = rng.choice(kinds)
+            if kind == "partial":
+                keys = keys[:rng.randint(1, n - 1)]
+            elif kind == "repeated":
+                i, j = rng.sample(range(n), 2)
+                keys[i] = sim.key(rng, perm[j])
+            elif kind == "extra":
+                keys.append(sim.key(rng, perm[0]))
+            elif kind == "unknown":
+                keys[rng.randrange(n)] = ["name", rng.choice([d for d in gen.DIMS + ["t", "u", "q"] if d not in sim.dims])]
+            else:
+                keys[rng.randrange(n)] = ["pos", rng.choice([n, n + 1, -n - 1, -n - 2])]
+            return {"fn": "transpose", "dims": keys, "how": rng.choice(["list", "tuple", "varargs"]), "invalid": kind, "_err": True}
+        if fn == "swapaxes_bad":
+            i = rng.randrange(n)
+            kind = rng.choice(["unknown", "range"])
+            other = ["name", rng.choice([d for d in gen.DIMS + ["t", "u", "q"] if d not in sim.dims])] if kind == "unknown" \
+                else ["pos", rng.choice([n, n + 1, -n - 1, -n - 2])]
+            ks = [sim.key(rng, i), other]
+            rng.shuffle(ks)
+            return {"fn": "swapaxes", "a1": ks[0], "a2": ks[1], "invalid": kind, "_err": True}
         if fn == "transpose":
             r = rng.random()
             if r < 0.15:
@@ -160,6 +249,13 @@ class C10(Prop):
         if fn == "repeat":
             singles = [i for i, a in enumerate(sim.axes) if len(a["labels"]) == 1]
             i = rng.choice(singles)
+            if rng.random() < 0.3:
+                # repeat(<int>, axis): labels 0 .. count-1
+                cnt = rng.choice([1, 2, 2, 3, 4])
+                v = {"name": sim.axes[i]["name"], "kind": "i", "labels": [["n", k, 1] for k in range(cnt)]}
+                st = {"fn": "repeat", "values": v, "axis": sim.key(rng, i), "count": cnt, "kwaxis": rng.random() < 0.7}
+                sim.axes[i] = dict(v, multi=None)
+                return st
             v = gen.clean(gen.rand_axis(rng, sim.axes[i]["name"], n=rng.randint(1, 3)))
             st = {"fn": "repeat", "values": v, "axis": sim.key(rng, i), "as_axis": rng.random() < 0.3}
             sim.axes[i] = dict(v, multi=None)
@@ -185,18 +281,25 @@ class C10(Prop):
 
     def gen_chain(self, rng):
         rank = rng.choice([0, 1, 2, 2, 3, 3, 4])
-        arr = distinct_array(rng, rank)
+        arr = distinct_array(rng, rank, zero=0.12)
         sim = ops.Sim(arr)
         steps = []
         for _ in range(rng.choice([1, 1, 2, 3, 4])):
             st = self.gen_step(rng, sim)
             steps.append(st)
-            if st.get("_err"):
+            if st.get("_err") or st.get("_last"):
                 break
             if len(sim.axes) > 5:
                 break
         c = {"op": "chain", "array": arr, "steps": steps}
-        if not any(st.get("_err") for st in steps):
+        if steps[-1].get("invalid"):
+            c["invalid"] = steps[-1]["invalid"]
+            if c["invalid"] == "range":
+                c["nolean"] = True      # the mirror does not validate integer positions (Python: IndexError)
+        if steps[-1].get("_last"):
+            # a set: the dimensions in any order, each with its own labels
+            c["_expect_set"] = {a["name"]: list(a["labels"]) for a in sim.axes}
+        elif not any(st.get("_err") for st in steps):
             # what was requested, tracked independently of the library and of the model: dims and labels per dimension
             c["_expect"] = {"dims": list(sim.dims), "labels": [list(a["labels"]) for a in sim.axes]}
         return c
@@ -223,9 +326,74 @@ class C10(Prop):
                     base[ax["name"]] = (ax["kind"], ax["labels"])
                 elif rng.random() < 0.9:
                     ax["kind"], ax["labels"] = base[ax["name"]]
-        return {"op": "multi", "fn": rng.choice(["broadcast_arrays", "broadcast_arrays", "align_dims"]), "arrays": [gen.clean(a) for a in arrays]}
+        fn = rng.choice(["broadcast_arrays", "broadcast_arrays", "align_dims"])
+        if rng.random() < 0.12 and base:
+            # a dimension without any label, in every array that has it
+            # TODO(defect): broadcast_arrays(a, b) where b has a zero-length axis that a lacks returns arrays of different
+            # shapes ((..., 1) and (..., 0)) when a comes first: _get_axes keeps a's inserted singleton axis as the common
+            # axis (`axis.size > 1` instead of `!= 1`). That form is skipped: for broadcast_arrays the label-less dimension
+            # is taken among those every array has
+            cands = sorted(d for d in base if fn == "align_dims" or all(d in [ax["name"] for ax in a["axes"]] for a in arrays))
+            if cands:
+                d0 = rng.choice(cands)
+                for a in arrays:
+                    for ax in a["axes"]:
+                        if ax["name"] == d0:
+                            ax["labels"] = []
+        return {"op": "multi", "fn": fn, "arrays": [gen.clean(a) for a in arrays]}
+
+    def systematic(self):
+        """small exhaustive families of the less common spellings, on fixed arrays of rank 1-3"""
+        def fixed(rank, single=None):
+            return {"axes": [{"name": gen.DIMS[i], "kind": ["i", "O", "f"][i],
+                              "labels": [gen.enc(v) for v in ([10, 20], ["a", "b", "c"], [0.5, 1.5, 2.5, 3.5])[i]][:1 if single == i else None]}
+                             for i in range(rank)], "vkind": "f", "attrs_py": {"title": "T"}}
+        for rank in (1, 2, 3):
+            arr = fixed(rank)
+            names = [a["name"] for a in arr["axes"]]
+            expect = {"dims": names, "labels": [list(a["labels"]) for a in arr["axes"]]}
+            spell = lambda i, k: [["name", names[i]], ["pos", i], ["pos", i - rank]][k % 3]
+            for i in range(rank):
+                # swapaxes(i, i): nothing moves
+                for k in range(3):
+                    yield {"op": "chain", "array": arr, "steps": [{"fn": "swapaxes", "a1": spell(i, k), "a2": spell(i, k + 1), "same": True}],
+                           "_expect": expect}
+                # positions out of range, unknown names
+                for badv in (rank, rank + 1, -rank - 1):
+                    keys = [["pos", j] for j in range(rank)]
+                    keys[i] = ["pos", badv]
+                    yield {"op": "chain", "array": arr, "invalid": "range", "nolean": True,
+                           "steps": [{"fn": "transpose", "dims": keys, "how": "list", "invalid": "range", "_err": True}]}
+                    yield {"op": "chain", "array": arr, "invalid": "range", "nolean": True,
+                           "steps": [{"fn": "swapaxes", "a1": spell(i, badv), "a2": ["pos", badv], "invalid": "range", "_err": True}]}
+                keys = [["name", d] for d in names]
+                keys[i] = ["name", "q"]
+                yield {"op": "chain", "array": arr, "invalid": "unknown",
+                       "steps": [{"fn": "transpose", "dims": keys, "how": "tuple", "invalid": "unknown", "_err": True}]}
+            if rank >= 2:
+                for perm in itertools.permutations(range(rank)):
+                    for k in range(3):
+                        yield {"op": "chain", "array": arr, "_expect_set": {a["name"]: list(a["labels"]) for a in arr["axes"]},
+                               "steps": [{"fn": "transpose", "dims": [spell(p, k) for p in perm], "how": "set", "_last": True}]}
+                    # one dimension short / one dimension twice
+                    yield {"op": "chain", "array": arr, "invalid": "partial",
+                           "steps": [{"fn": "transpose", "dims": [["name", names[p]] for p in perm[:-1]], "how": "list", "invalid": "partial", "_err": True}]}
+                    yield {"op": "chain", "array": arr, "invalid": "repeated",
+                           "steps": [{"fn": "transpose", "dims": [["pos", p] for p in perm[:-1]] + [["name", names[perm[0]]]], "how": "varargs",
+                                      "invalid": "repeated", "_err": True}]}
+            # repeat(<int>, axis) of a singleton axis at every position
+            for i in range(rank):
+                arr1 = fixed(rank, single=i)
+                for cnt in (1, 2, 3):
+                    v = {"name": names[i], "kind": "i", "labels": [["n", k, 1] for k in range(cnt)]}
+                    labels = [list(a["labels"]) for a in arr1["axes"]]
+                    labels[i] = v["labels"]
+                    yield {"op": "chain", "array": arr1, "_expect": {"dims": names, "labels": labels},
+                           "steps": [{"fn": "repeat", "values": v, "axis": spell(i, cnt), "count": cnt, "kwaxis": cnt != 2}]}
 
     def gen(self, rng, tier):
+        for c in self.systematic():
+            yield c
         n = 900 if tier == "quick" else 25000
         for _ in range(n):
             r = rng.random()
@@ -260,7 +428,7 @@ class C10(Prop):
         def run():
             cur = a
             for st in c["steps"]:
-                cur = ops.apply_step(cur, st)
+                cur = apply_step10(cur, st)
             return core.obs_array(cur, toks)
         out = core.guarded(run)
         out["input"] = before
@@ -272,8 +440,15 @@ class C10(Prop):
         toks = core.AttrTokens()
         if c["op"] == "multi":
             return {"op": "multi", "fn": c["fn"], "arrays": [core.lean_array(gen.clean(a), toks) for a in c["arrays"]]}
-        return {"op": "chain", "arrays": [core.lean_array(gen.clean(c["array"]), toks)],
-                "steps": [ops.lean_step(st) for st in c["steps"]]}
+        if c.get("nolean"):
+            return dict(DUMMY)
+        steps = []
+        for st in c["steps"]:
+            ls = lean_step10(st)
+            if st["fn"] == "transpose" and st.get("how") == "set":
+                ls["dims"] = set_order(st)
+            steps.append(ls)
+        return {"op": "chain", "arrays": [core.lean_array(gen.clean(c["array"]), toks)], "steps": steps}
 
     def judge(self, c, io, ans):
         lean = ans["lib"]
@@ -303,14 +478,30 @@ class C10(Prop):
                     if len(shapes) > 1 or len(dims) > 1:
                         prop_bad.append("broadcast:not_same_shape")
         else:
-            if "ok" in lean:
-                a = core.build_array(c["array"], 0)
-                lo = core.lean_obs_to_canon(lean["ok"], core.CellEnv([a.values])); lo["scalar"] = False
-                lean = {"ok": lo}
-            d = core.diff_obs(io, lean)
-            bad += [("M." + x if x == "errclass" else x) for x in d]
+            if c.get("nolean"):
+                lean = {"err": "unmodelled"}
+            else:
+                if "ok" in lean:
+                    a = core.build_array(c["array"], 0)
+                    lo = core.lean_obs_to_canon(lean["ok"], core.CellEnv([a.values])); lo["scalar"] = False
+                    lean = {"ok": lo}
+                d = core.diff_obs(io, lean)
+                bad += [("M." + x if x == "errclass" else x) for x in d]
+            if c.get("invalid"):
+                # the request names no permutation / pair of the array's dimensions: there is no 'requested arrangement'
+                # a result could have, the call has to be refused
+                if "ok" in io:
+                    prop_bad.append("outcome:invalid_request_accepted")
+                elif io["err"] == "recursion":
+                    prop_bad.append("outcome:recursion")
             if "ok" in io:
                 prop_bad += check_coordinates(io["input"], io["ok"])
+                if c.get("_expect_set") is not None:
+                    want = c["_expect_set"]
+                    if sorted(io["ok"]["dims"]) != sorted(want):
+                        prop_bad.append("dims:not_as_requested")
+                    elif any([lab_key(l) for l in x["labels"]] != [lab_key(l) for l in want[x["name"]]] for x in io["ok"]["axes"]):
+                        prop_bad.append("axes.labels:not_as_requested")
                 if io["ok"]["attrs"] != io["input"]["attrs"]:
                     prop_bad.append("attrs")
                 if c.get("_expect"):
@@ -323,7 +514,7 @@ class C10(Prop):
                     for k in ("dims", "shape", "values", "axes"):
                         if io["ok"][k] != io["input"][k]:
                             prop_bad.append("roundtrip." + k)
-            elif "ok" in lean or c.get("_expect"):
+            elif "ok" in lean or c.get("_expect") or c.get("_expect_set") is not None:
                 prop_bad.append("outcome:" + io["err"])
         if io.get("operand_modified"):
             prop_bad.append("operand_modified")
@@ -343,8 +534,18 @@ class C10(Prop):
             f["rank"] = len(c["array"]["axes"]); f["len"] = len(c["steps"])
             for s in c["steps"]:
                 f["fn:" + s["fn"]] = 1
+                if s["fn"] == "repeat":
+                    f["repeat.values"] = "int" if s.get("count") is not None else ("Axis" if s.get("as_axis") else "array")
+                if s["fn"] == "transpose" and s.get("dims") is not None:
+                    f["transpose.how"] = s.get("how", "list")
+                if s["fn"] == "swapaxes" and s.get("same"):
+                    f["swapaxes.same"] = 1
+            f["invalid"] = c.get("invalid", "no")
+            f["model"] = "oracle-only" if c.get("nolean") else "lean"
+            f["zero_length_axis"] = any(len(a["labels"]) == 0 for a in c["array"]["axes"])
         else:
             f["fn:" + c["fn"]] = 1
+            f["zero_length_axis"] = any(len(ax["labels"]) == 0 for a in c["arrays"] for ax in a["axes"])
         return f
 
     def size(self, c):
